@@ -156,6 +156,33 @@ func registerSync(e *Engine) {
 		return deferredResult{}, true
 	}
 
+	// sync.Pool: a per-pool free list (LIFO); Get falls back to New
+	in["(*sync.Pool).Put"] = func(r *Run, g *Goroutine, fv *FuncV, a []Value, retTo func(Value)) (Value, bool) {
+		p := a[0].(PtrV)
+		if iv, ok := a[1].(IfaceV); !ok || iv.t != nil {
+			if r.pools == nil {
+				r.pools = map[*Object][]Value{}
+			}
+			r.pools[p.obj] = append(r.pools[p.obj], a[1])
+		}
+		return nil, true
+	}
+	in["(*sync.Pool).Get"] = func(r *Run, g *Goroutine, fv *FuncV, a []Value, retTo func(Value)) (Value, bool) {
+		p := a[0].(PtrV)
+		if l := r.pools[p.obj]; len(l) > 0 {
+			v := l[len(l)-1]
+			r.pools[p.obj] = l[:len(l)-1]
+			return v, true
+		}
+		pt := fv.fn.Signature.Recv().Type().(*types.Pointer).Elem()
+		nf := r.load(p.child(r.fieldByName(pt, "New")))
+		f, ok := nf.(*FuncV)
+		if !ok || f == nil {
+			return IfaceV{}, true
+		}
+		r.invoke(g, f, nil, retTo)
+		return deferredResult{}, true
+	}
 	// sync/atomic functions on *int32 / *int64 / *uint32 / *uint64
 	for _, ty := range []string{"Int32", "Int64", "Uint32", "Uint64", "Uintptr"} {
 		ty := ty
